@@ -1,4 +1,5 @@
 import RPVerif.Lemmas.Exec
+import RPVerif.Model.Noop
 
 /-!
 # C07 — The executor finishes each task exactly once
@@ -277,5 +278,125 @@ theorem C07_bulk (ts : List (Nat × Bool × Nat)) (hn : (ts.map (·.1)).Nodup) (
 
 example : bulkEvents [(0, false, 0), (1, true, 0), (2, false, 3)]
     = [.start 0, .start 1, .start 2, .unsched 1, .failed 1, .unsched 0, .unsched 2, .handed 0 true, .handed 2 false] := by decide
+
+/-! ### the NOOP executor -/
+
+section noop
+open RPVerif.Noop
+
+/-- what the invariant says about a state after the operations `ops` -/
+structure NoopInv (ops : List Op) (s : St) : Prop where
+  started : ∀ u, s.evs.count (.start u) = (accepted ops).count u
+  cons    : ∀ u, (accepted ops).count u = s.tasks.count u + s.evs.count (.handed u)
+  paired  : ∀ u, s.evs.count (.unsched u) = s.evs.count (.handed u)
+
+theorem accepted_append (a b : List Op) : accepted (a ++ b) = accepted a ++ accepted b := by
+  induction a with
+  | nil => rfl
+  | cons o os ih => cases o <;> simp [accepted, ih]
+
+theorem count_filter_split (l : List Nat) (p : Nat → Bool) (u : Nat) :
+    l.count u = (l.filter p).count u + (l.filter (fun x => !p x)).count u := by
+  induction l with
+  | nil => rfl
+  | cons x xs ih =>
+    simp only [filter_cons]
+    cases hp : p x <;> simp [count_cons, ih] <;> omega
+
+theorem noop_step_inv (ops : List Op) (s : St) (o : Op) (h : NoopInv ops s) : NoopInv (ops ++ [o]) (Noop.step s o) := by
+  have hst : ∀ (l : List Nat) (u : Nat), (l.map Ev.start).count (.start u) = l.count u :=
+    fun l u => count_map_ctor Ev.start (fun a b e => by injection e) l u
+  have hun : ∀ (l : List Nat) (u : Nat), (l.map Ev.unsched).count (.unsched u) = l.count u :=
+    fun l u => count_map_ctor Ev.unsched (fun a b e => by injection e) l u
+  have hha : ∀ (l : List Nat) (u : Nat), (l.map Ev.handed).count (.handed u) = l.count u :=
+    fun l u => count_map_ctor Ev.handed (fun a b e => by injection e) l u
+  cases o with
+  | work b =>
+    have hacc : accepted (ops ++ [Op.work b]) = accepted ops ++ b := by
+      rw [accepted_append]; simp [accepted]
+    refine ⟨?_, ?_, ?_⟩
+    · intro u
+      simp only [Noop.step, count_append, hacc, hst, h.started u]
+    · intro u
+      simp only [Noop.step, count_append, hacc]
+      rw [count_map_zero Ev.start b (.handed u) (fun _ e => by cases e)]
+      have := h.cons u; omega
+    · intro u
+      simp only [Noop.step, count_append]
+      rw [count_map_zero Ev.start b (.unsched u) (fun _ e => by cases e),
+          count_map_zero Ev.start b (.handed u) (fun _ e => by cases e)]
+      have := h.paired u; omega
+  | collect due =>
+    have hacc : accepted (ops ++ [Op.collect due]) = accepted ops := by
+      rw [accepted_append]; simp [accepted]
+    refine ⟨?_, ?_, ?_⟩
+    · intro u
+      simp only [Noop.step, count_append, hacc]
+      rw [count_map_zero Ev.unsched _ (.start u) (fun _ e => by cases e),
+          count_map_zero Ev.handed _ (.start u) (fun _ e => by cases e)]
+      have := h.started u; omega
+    · intro u
+      simp only [Noop.step, count_append, hacc, hha]
+      rw [count_map_zero Ev.unsched _ (.handed u) (fun _ e => by cases e)]
+      have h1 := h.cons u
+      have h2 := count_filter_split s.tasks (fun x => due.contains x) u
+      omega
+    · intro u
+      simp only [Noop.step, count_append, hun, hha]
+      rw [count_map_zero Ev.handed _ (.unsched u) (fun _ e => by cases e),
+          count_map_zero Ev.unsched _ (.handed u) (fun _ e => by cases e)]
+      have := h.paired u; omega
+
+theorem noop_run_inv (ops : List Op) : NoopInv ops (Noop.run ops) := by
+  have key : ∀ (todo done : List Op) (s : St), NoopInv done s → NoopInv (done ++ todo) (todo.foldl Noop.step s) := by
+    intro todo
+    induction todo with
+    | nil => intro done s h; simpa using h
+    | cons o os ih =>
+      intro done s h
+      have := ih (done ++ [o]) (Noop.step s o) (noop_step_inv done s o h)
+      simpa [List.append_assoc] using this
+  have := key ops [] {} ⟨fun _ => rfl, fun _ => rfl, fun _ => rfl⟩
+  simpa [Noop.run] using this
+
+/-- **the NOOP executor neither loses nor duplicates a task**: for every sequence of `work` calls and
+    collector passes (any bulks, any deadlines), every task handed to `work` was announced once and is
+    either still held or was handed on - never both, never twice when uids are distinct - and the
+    unschedule message was published exactly as often as the task was handed on -/
+theorem C07_noop (ops : List Op) (u : Nat) :
+    (Noop.run ops).evs.count (.start u) = (accepted ops).count u
+    ∧ (accepted ops).count u = (Noop.run ops).tasks.count u + (Noop.run ops).evs.count (.handed u)
+    ∧ (Noop.run ops).evs.count (.unsched u) = (Noop.run ops).evs.count (.handed u) :=
+  ⟨(noop_run_inv ops).started u, (noop_run_inv ops).cons u, (noop_run_inv ops).paired u⟩
+
+/-- ... and after a collector pass for which every deadline has passed nothing is left behind: every
+    accepted task (distinct uids) was handed on exactly once and released exactly once -/
+theorem C07_noop_complete (ops : List Op) (due : List Nat) (hn : (accepted ops).Nodup)
+    (hd : ∀ u ∈ (Noop.run ops).tasks, u ∈ due) (u : Nat) (hu : u ∈ accepted ops) :
+    (Noop.run (ops ++ [.collect due])).tasks = []
+    ∧ (Noop.run (ops ++ [.collect due])).evs.count (.handed u) = 1
+    ∧ (Noop.run (ops ++ [.collect due])).evs.count (.unsched u) = 1 := by
+  have hrun : Noop.run (ops ++ [.collect due]) = Noop.step (Noop.run ops) (.collect due) := by
+    simp [Noop.run, List.foldl_append]
+  have hinv := noop_run_inv (ops ++ [.collect due])
+  have hacc : accepted (ops ++ [Op.collect due]) = accepted ops := by
+    rw [accepted_append]; simp [accepted]
+  have hempty : (Noop.step (Noop.run ops) (.collect due)).tasks = [] := by
+    simp only [Noop.step]
+    apply filter_eq_nil_iff.mpr
+    intro x hx
+    simp [List.contains_iff_mem, hd x hx]
+  rw [hrun] at hinv ⊢
+  refine ⟨hempty, ?_, ?_⟩
+  · have := hinv.cons u
+    rw [hacc, hempty, hn.count, if_pos hu] at this
+    simpa using this.symm
+  · have h1 := hinv.cons u
+    have h2 := hinv.paired u
+    rw [hacc, hempty, hn.count, if_pos hu] at h1
+    simp at h1
+    omega
+
+end noop
 
 end RPVerif.C07
